@@ -15,8 +15,12 @@ SOURCES = {'translate', 'set_sub_cell', 'set_cell', 'get_cell', 'translate_with_
 SINK_CALLS = {'set_sub_cell', 'set_cell', 'join', 'str', 'format'}
 
 
+TEXT_HELPERS = set()       # methods under translators/ that return text (annotation `-> str`, or none): filled by check()
+
+
 def _is_source_call(n):
-    return isinstance(n, ast.Call) and isinstance(n.func, ast.Attribute) and n.func.attr in SOURCES
+    return isinstance(n, ast.Call) and isinstance(n.func, ast.Attribute) and \
+        (n.func.attr in SOURCES or n.func.attr in TEXT_HELPERS)
 
 
 class _Fn:
@@ -184,6 +188,13 @@ def check():
     """-> (number of functions scanned, list of problems)"""
     problems, n = [], 0
     root = os.path.join(SRC, 'translators')
+    TEXT_HELPERS.clear()
+    for dirpath, _, names in os.walk(root):
+        for nm in sorted(names):
+            if nm.endswith('.py'):
+                for fn in ast.walk(ast.parse(open(os.path.join(dirpath, nm), encoding='utf-8').read())):
+                    if isinstance(fn, ast.FunctionDef) and (fn.returns is None or ast.unparse(fn.returns) == 'str'):
+                        TEXT_HELPERS.add(fn.name)
     for dirpath, _, names in os.walk(root):
         for nm in sorted(names):
             if not nm.endswith('.py'):
